@@ -929,8 +929,9 @@ def rule_text(tier, PS):
     thinned = ["%s: every %dth of %d" % (q.name, q.stride(tier), q.total) for q in PS if q.stride(tier) > 1]
     return ("per shared function: complete row-major Cartesian product of its argument palettes (rotation axes x angles x translations; "
             "joint-screw chains J^n (6 revolute + 2 prismatic + 1 seed-generic screw), n<=3%s, x joint values {0,1e-7,0.3,-1.2}^n "
-            "({0.3,-1.2}^3 for dynamics and IK goals at n=3); cyclic windows n=4..7 of a fixed 8-joint sequence x {0.3,-1.2}^n; IK starts = goal "
-            "+ {0,0.02,0.3,2.0} e_i x 3 tolerance pairs; "
+            "({0.3,-1.2}^3 for dynamics and IK goals at n=3); cyclic windows n=4..7 of a fixed 8-joint sequence x {0.3,-1.2}^n; IK goals = FK of "
+            "such a joint vector, exact or displaced by a fixed (5e-3, 5e-4) twist, starts = that joint vector + {0,0.02,0.3,2.0} e_i, "
+            "x 3 tolerance pairs; "
             "4 link-parameter schedules (4 link frames, 2 SPD inertias, masses 0.1/50); qd in {0,e_i,generic}; (qdd|tau, g, Ftip) complete "
             "product for n<=2 and one-factor-at-a-time star + 3 mixed for n>=3; N=2..12 x both scalings; N in {2,3,5,12} x intRes in {1,2,8}); "
             "each case = one port call and one reference call on equal float64 C-contiguous arguments. Parts too costly for this tier are "
